@@ -249,7 +249,11 @@ def vec_eq(a, b):
 def view_eq_terms(o1, o2, what):
     """The observable view named by the property: array, origin, sampling, units (+ class)."""
     f1, f2 = o1.fields, o2.fields
-    return [(f"{what}:array", arr_eq(f1.get("_array"), f2.get("_array"))),
+    a1, a2 = f1.get("_array"), f2.get("_array")
+    dt_same = cm.dtk(a1) == cm.dtk(a2) if isinstance(a1, SymArr) and isinstance(a2, SymArr) else FALSE
+    dt_lab = f"{what}(dtype)" if what == "in-place==copying" else what
+    return [(f"{what}:array", arr_eq(a1, a2)),
+            (f"{dt_lab}:array-dtype (value kind of the result: float / integer / unsigned / complex)", dt_same),
             (f"{what}:origin", vec_eq(f1.get("_origin"), f2.get("_origin"))),
             (f"{what}:sampling", vec_eq(f1.get("_sampling"), f2.get("_sampling"))),
             (f"{what}:units", vec_eq(f1.get("_units"), f2.get("_units"))),
@@ -873,7 +877,7 @@ def copy_post(src, r, snap, custom, what="copy"):
     if not z3.is_true(out[0][1]):
         return out
     out += inv_terms(r, "Inv(result)")
-    out += view_eq_terms(src, r, f"{what}:same-view")[:4]
+    out += view_eq_terms(src, r, f"{what}:same-view")[:5]
     out.append((f"{what}:name-and-signal-units", z3.And(val_eq(r.fields.get("_name"), src.fields["_name"]), val_eq(r.fields.get("_signal_units"), src.fields["_signal_units"]))))
     shared = [k for k in ("_array", "_origin", "_sampling", "_units") if not is_fresh(r.fields.get(k), snap)]
     out.append((f"{what}:shares-no-buffer-with-source{'(' + ','.join(shared) + ')' if shared else ''}", B(not shared)))
@@ -1022,9 +1026,11 @@ def op_ensures_for(calibration_kept):
             out.append(("frame(in-place):other-attributes-kept", B(set(src.fields) == set(s.old) and all(src.fields[k] is s.old[k][1] for k in keep))))
             return tagged(out, s.case)
         r = s.result
-        out.append(("Inv(result):result-is-a-new-dataset-of-the-same-class", B(isinstance(r, Obj) and r is not src and r.cls is src.cls)))
+        out.append(("Inv(result):result-is-a-dataset-of-the-same-class", B(isinstance(r, Obj) and r.cls is src.cls)))
         if not z3.is_true(out[0][1]):
             return tagged(out, s.case)
+        # a copying variant that hands back the source object itself makes every later setter / in-place op on the "new" dataset rewrite the source
+        out.append(("frame(source):result-is-a-new-object-not-the-source-itself", B(r is not src)))
         out += inv_terms(r, "Inv(result)")
         out.append(("Inv(result):ndim-unchanged", B(r.fields["_array"].ndim == d)))
         out += untouched_terms(src, s.old, "frame(source)")
@@ -1351,6 +1357,7 @@ def gi_ensures(s):
     out.append(("Inv(result):same-class-when-ndim-is-kept / registered-class-of-the-new-ndim-otherwise", B(r.cls is (src.cls if nd_out == d else reg_cls))))
     out += inv_terms(r, "Inv(result)")
     out.append(("data:result-array-is-the-numpy-indexed-array", arr_eq(a, spec) if isinstance(a, SymArr) else FALSE))
+    out.append(("data:result-dtype-is-the-source-dtype", cm.dtk(a) == cm.dtk(s.old["_array"][1]) if isinstance(a, SymArr) else FALSE))
     # calibration: result axis j carries the calibration of the source axis it came from; sampling multiplied by the slice step
     amap = spec.axis_map
     moved = list(amap) != sorted(amap)
